@@ -38,7 +38,6 @@ def perm_constants(p):
 def rule_kind(ctx):
     p = ctx.p
     ctx.rule("C04.KIND", "each path-taking verb enforces PathPermissions(<kind>) where kind agrees between the statement's table and effect inference")
-    ctx.rule("C04.ORDER", "PathPermissions is inside the login guard (it needs the session user)")
     table, _ = p.command_table()
     methods = p.methods("Server")
     login = field_names(p)["login_required"]
@@ -102,8 +101,8 @@ def rule_kind(ctx):
             if is_guard(d, login):
                 seen_login = True
             if d.name == "PathPermissions":
-                ctx.ob("C04.ORDER", d.node, f"{name}: PathPermissions is inside the login guard", seen_login,
-                       f"{name}: PathPermissions runs before the login guard (it reads connection.user)", construct=f"{name}:perm before login", function=p.qualname(fn))
+                if not seen_login:
+                    ctx.note(f"{name}: PathPermissions is not inside a login guard (decided by C03.GUARD, not an alarm of C04)")
         # unknown permission names
         for d in p.decorators(fn):
             if d.name == "PathPermissions":
